@@ -1,6 +1,7 @@
 import VermouthProofs.C18
 import VermouthProofs.C18_Select
 import VermouthProofs.C18_Pipeline
+import VermouthProofs.C18_NoAbort
 /-!
 # C18 — Go-model sites and contacts mirror the backbone and the contact map
 
@@ -419,6 +420,36 @@ theorem pipeline_exclusion_iff (out : List Cand)
     (pipeline_type_determines_key P vsn atoms h1 h2) a b
 
 end pipeline
+
+/-- **The composed pipeline never raises the KeyError of `get_go_type_from_attributes`**: every
+residue that has a backbone particle received a site of matching chain, input resid and prefix. -/
+theorem pipeline_no_keyerror (P : Params) (vsn : String) (atoms : List Atom) (edges : List (Int × Int))
+    (contacts : List Contact) : (goPipeline P vsn atoms edges contacts).2 ≠ .keyerror := by
+  intro h
+  have hm := runLoop_keyerror _ _ h
+  obtain ⟨c, _, hc⟩ := List.mem_map.mp hm
+  obtain ⟨ia, ib, ra, rb, a, b, hia, hib, hra, hrb, ha, hb, hnone⟩ := classify_keyerror hc
+  rcases hnone with hn | hn
+  · obtain ⟨t, ht⟩ := pipeline_firstType_some P.pre P.backbone vsn atoms _ _ ia ra a hia hra ha
+    rw [ht] at hn; cases hn
+  · obtain ⟨t, ht⟩ := pipeline_firstType_some P.pre P.backbone vsn atoms _ _ ib rb b hib hrb hb
+    rw [ht] at hn; cases hn
+
+/-- The pipeline stops with `sys.exit(1)` only if a line of the contact map names a residue without a
+backbone particle. -/
+theorem pipeline_exit_only_without_backbone (P : Params) (vsn : String) (atoms : List Atom)
+    (edges : List (Int × Int)) (contacts : List Contact)
+    (h : (goPipeline P vsn atoms edges contacts).2 = .exit) :
+    ∃ c ∈ contacts, ∃ (i : Nat) (r : Residue), (pipelineResidues P vsn atoms)[i]? = some r ∧
+      (findRes (pipelineResidues P vsn atoms) c.chainA c.residA = some i
+        ∨ findRes (pipelineResidues P vsn atoms) c.chainB c.residB = some i) ∧
+      firstBB r P.backbone = none := by
+  have hm := runLoop_exit _ _ h
+  obtain ⟨c, hcm, hc⟩ := List.mem_map.mp hm
+  obtain ⟨ia, ib, ra, rb, hia, hib, hra, hrb, hnone⟩ := classify_exit hc
+  rcases hnone with hn | hn
+  · exact ⟨c, hcm, ia, ra, hra, Or.inl hia, hn⟩
+  · exact ⟨c, hcm, ib, rb, hrb, Or.inr hib, hn⟩
 
 /-! ## non-vacuity: a concrete two-chain molecule satisfying every hypothesis
 
